@@ -51,6 +51,14 @@ Sizes   : `c01reg.sized_scenarios`: boundary sizes 0..12, 15-17, 19-21, 31-33, 6
           arguments, keywords, segments of a dotted name, nesting depth and width of a value, registered callables,
           exchanges on one proxy and History, uses of one kept MultiCall / method object, length of a method name.
           Histogram keys `size/<dimension>/<n>`.
+Names2  : harness/c01names.py: names that LOOK special to some layer (reserved `rpc.` prefix, `system.` prefix with and
+          without the introspection functions registered, Python keywords, attribute names of the dispatcher / server
+          classes, words of the client classes, digit-first, Unicode incl. NFKC-sensitive, whitespace, control characters,
+          very long, dots at the ends, empty segments, words and punctuation of JSON).  A FIXED list, every name of it on every
+          run and seed: as registered function and as attribute path of the registered instance, under all four version
+          pairs on the bare rig (two on the others), single call positional and keyword, notification, three batch
+          positions; plus random draws (`segment`, `gen_callables`).  Histogram keys `name/<class>` (by predicate);
+          `name/excluded-dunder`, `name/excluded-proxy-own-attr` count what the quantifier leaves out.
 Assumed : the JSON codec laws `Backend.roundtrip` and `Backend.batch` — tested here against jsonrpclib.jdumps/jloads on
           every generated value and batch.
 """
@@ -62,6 +70,7 @@ import socket
 import tempfile
 import threading
 
+import c01names
 import c01reg
 import gen
 import impl
@@ -92,7 +101,7 @@ REQUIRED_THEOREMS = [
     "C01_gen_proxyGetattrRefuses", "C01_gen_proxyGetattrReturns", "C01_gen_methodGetattr", "C01_gen_jobGetattr",
     "C01_gen_multicallClearsJobs", "C01_gen_multicallGetattrAppends", "C01_gen_callReceiverPositional",
     "C01_gen_requestWrites", "C01_gen_servePathSharedWrites", "C01_gen_multicallResponsesUntouched",
-    "C01_gen_multicallJobIds",
+    "C01_gen_multicallJobIds", "C01_gen_methodNameInspections",
 ]
 
 J = impl.jsonrpclib.jsonrpc
@@ -182,6 +191,24 @@ def excluded_names():
     return _excluded[0]
 
 
+_excluded_first = []
+
+
+def excluded_first():
+    """Attributes that normal lookup finds on the objects a WHOLE method name is looked up on (`getattr(obj, name)`): the
+    proxy, `proxy._notify`, a MultiCall and its `_notify` (not a `_Method` / MultiCallMethod, which see later segments)."""
+    if not _excluded_first:
+        tr = impl.LoopTransport(lambda body: "")
+        proxy = J.ServerProxy("http://localhost/", transport=tr)
+        mc = J.MultiCall(proxy)
+        names = set()
+        for o in (proxy, J._Notify(lambda *a: None), mc, J.MultiCallNotify(mc)):
+            names.update(dir(o))
+            names.update(getattr(o, "__dict__", {}).keys())
+        _excluded_first.append(names)
+    return _excluded_first[0]
+
+
 def is_dunder(n):
     return n.startswith("__") and n.endswith("__")
 
@@ -208,7 +235,10 @@ def segment(rng, allow_uni=True, underscore=False):
     excl = excluded_names()
     for _ in range(50):
         r = rng.random()
-        if underscore and r < 0.3:
+        if allow_uni and rng.random() < 0.12:
+            # a segment that looks special to some layer (harness/c01names.py): rpc, system, keywords, dispatcher attributes…
+            s = c01names.special_segment(rng)
+        elif underscore and r < 0.3:
             s = underscored(rng)
         elif r < 0.6 or not allow_uni:
             s = ident(rng)
@@ -238,7 +268,7 @@ def gen_sig(rng):
     return [names, rng.randint(0, len(names)), rng.random() < 0.3, rng.random() < 0.4]
 
 
-def gen_callables(rng, n):
+def gen_callables(rng, n, special=True):
     out = []
     used = set()
     for _ in range(n):
@@ -248,6 +278,9 @@ def gen_callables(rng, n):
             # leading underscores only in names of registered functions (see `underscored`)
             segs = [segment(rng, allow_uni=True, underscore=(target == "func")) for _ in range(depth)]
             name = ".".join(segs)
+            if special and rng.random() < 0.08:
+                # a whole name of the fixed list of special-looking names (empty segments, dots at the ends, rpc.* …)
+                name = c01names.special_name(rng, target, excluded_first()) or name
             # an attribute path must not pass through another callable's leaf twice; keep names prefix-free
             # (a dotted name that as a whole starts and ends with "__" is a dunder name for `getattr(proxy, name)`)
             if all(not (name == u or name.startswith(u + ".") or u.startswith(name + ".")) for u in used) and not is_dunder(name):
@@ -493,7 +526,8 @@ def gen_reuse(rng):
     for nm in names:
         beh = ["ret", value(rng)] if rng.random() < 0.85 else ["ret", rng.choice(FALSY)]
         callables.append({"name": nm, "target": target, "sig": [[], 0, True, True] if rng.random() < 0.7 else gen_sig(rng), "beh": beh})
-    for c in gen_callables(rng, rng.randint(1, 2)):
+    # (paths are walked segment by segment on kept objects here: no whole special names with empty / own-attribute segments)
+    for c in gen_callables(rng, rng.randint(1, 2), special=False):
         if all(not (c["name"] == u["name"] or c["name"].startswith(u["name"] + ".") or u["name"].startswith(c["name"] + ".")
                     or c["name"].split(".")[0] == ns) for u in callables):
             callables.append(c)
@@ -1398,7 +1432,7 @@ def run_group(ctx, rig_spec, scenarios, tmpdir, lines, pending):
                 # the model is interpreted: the long payloads (about 100 kB a line) are run through it once per value,
                 # on the first rig; on the other rigs they are judged by the monitor alone
                 # (the boundary-size scenarios likewise: through the model on the bare rig, by the monitor alone elsewhere)
-                if (not s.get("long") and not (s.get("size") and rig_spec != RIGS_QUICK[0])) \
+                if (not s.get("long") and not s.get("monitor_only") and not (s.get("size") and rig_spec != RIGS_QUICK[0])) \
                         or (rig_spec == RIGS_QUICK[0] and s.get("long_model")):
                     lines.append(model_line(s))
                     pending.append((s, rig_spec, project_real(s, records, hist)))
@@ -1410,6 +1444,13 @@ def run_group(ctx, rig_spec, scenarios, tmpdir, lines, pending):
                 for c in s["callables"]:
                     if any(seg.startswith("_") for seg in c.get("name", "").split(".")):
                         ctx.hist["name/underscore-segment"] += 1
+                    # the special-looking classes of harness/c01names.py, by predicate (fixed list and random draws alike)
+                    for cls in (c01names.classify(c["name"]) if c.get("name") else ()):
+                        ctx.hist["name/%s" % cls] += 1
+                        ctx.hist["name/%s/%s" % (cls, c.get("target", "pool"))] += 1
+                        ctx.hist["name/%s/client-%s" % (cls, effective_client_version(s))] += 1
+                if s.get("names"):
+                    ctx.hist["name/fixed-list-scenarios/%s" % s["names"]] += 1
                 if s.get("size"):
                     ctx.hist["size/%s/%d" % tuple(s["size"])] += 1
                 if s.get("registry"):
@@ -1418,6 +1459,9 @@ def run_group(ctx, rig_spec, scenarios, tmpdir, lines, pending):
                 for op in s["ops"]:
                     if op["op"] == "reg":
                         ctx.hist["registry/op/" + op["do"] + ("/" + op["style"] if op.get("style") else "")] += 1
+                        if op["do"] == "regfunc":
+                            for cls in c01names.classify(op["name"]):
+                                ctx.hist["name/%s/registry-program" % cls] += 1
                         continue
                     for f in ("mc", "keep", "nkeep"):
                         if op.get(f):
@@ -1667,7 +1711,22 @@ def run(ctx):
                 off = grng.randrange(4)
                 sized = (c01reg.sized_scenarios(c01reg.SIZES_CORE, full=False, k=n)
                          + c01reg.sized_scenarios([x for i, x in enumerate(all_sizes) if (i + n + off) % 4 == 0 and x <= 129], full=True, k=n))
-            scenarios = hw + reuse + registry + sized + long_payloads() + sized_payloads(rig_spec, big=True) + scenarios
+            # names that look special to some layer (harness/c01names.py): the whole fixed list on every rig; all four
+            # version pairs and the model on the bare rig, elsewhere two pairs (rotating with the rig), monitor alone
+            if rig_spec == ("bare", "loop", "std"):
+                # (the model does not look at the version when it routes a name: it is fed the two equal-version pairs)
+                named = [x if x["cver"] == x["sver"] else dict(x, monitor_only=True)
+                         for x in c01names.fixed_scenarios(excluded_names(), excluded_first())] + c01names.registry_programs()
+            else:
+                # a third of the classes per rig (rotating: three consecutive rigs see them all), the rpc. / system. families
+                # on every rig
+                labels = [lb for lb, _n in c01names.FIXED]
+                mine = set(lb for i, lb in enumerate(labels) if i % 3 == n % 3) | {"reserved-rpc-prefix", "system-prefix"}
+                pairs = (c01names.VERSION_PAIRS[:2], c01names.VERSION_PAIRS[2:] + c01names.VERSION_PAIRS[1:2])[n % 2]
+                named = [dict(x, monitor_only=True) for x in
+                         c01names.fixed_scenarios(excluded_names(), excluded_first(), pairs=pairs, classes=mine)
+                         + c01names.registry_programs()[n % 2::2]]
+            scenarios = hw + named + reuse + registry + sized + long_payloads() + sized_payloads(rig_spec, big=True) + scenarios
             import time as _time
             t_rig = _time.time()
             run_group(ctx, rig_spec, scenarios, tmpdir, lines, pending)
@@ -1688,6 +1747,19 @@ def run(ctx):
                 if op["op"] == "batch":
                     batches.append([{"jsonrpc": "2.0", "method": ".".join(j["path"]), "params": send_args(j)[0] or send_args(j)[1], "id": "x"}
                                     for j in op["jobs"]])
+        # what the quantifier leaves out (never called as in-domain ops): dunder names, own attributes of the helper objects
+        for nm in c01names.EXCLUDED_DUNDER:
+            assert is_dunder(nm)
+            ctx.hist["name/excluded-dunder"] += 1
+        for nm in c01names.EXCLUDED_OWN:
+            if nm in excluded_first():
+                ctx.hist["name/excluded-proxy-own-attr"] += 1
+        for _label, nms in c01names.FIXED:
+            for nm in nms:
+                if not c01names.in_domain(nm, excluded_first()):
+                    ctx.hist["name/excluded-proxy-own-attr" if nm in excluded_first() else "name/excluded-dunder"] += 1
+                elif not c01names.attr_routable(nm):
+                    ctx.hist["name/instance-path-private-segment-or-too-deep-func-only"] += 1
         law_failures = check_backend_laws(ctx, values, batches)
         ctx.extra["backend_law_values"] = len(values)
         ctx.extra["backend_law_batches"] = len(batches)
